@@ -232,8 +232,14 @@ func grpcScenarioPayload(letters []string, variant string) string {
 		case "emptydefault":
 			payload = "{}"
 		}
-		fmt.Fprintf(&b, "  - name: a%d\n    tag: a\n    call: target.TargetService.Hello\n    payload: '%s'\n%s    postprocessors:\n      - type: assert/response\n        payload: [Hello]\n        status_code: 200\n", i, payload, meta)
-		fmt.Fprintf(&b, "  - name: b%d\n    tag: b\n    call: target.TargetService.Hello\n    payload: '{\"name\": \"%s\"}'\n", i, l)
+		call, payloadB, assert := "target.TargetService.Hello", fmt.Sprintf("{\"name\": \"%s\"}", l), "        payload: [Hello]\n"
+		if c := scentarget.WktCall(l); c != "" {
+			// the letter is the method: an OK reply of a well-known type (request: Empty).  Such a reply has no greeting to
+			// assert on: step a asserts the status only, so the reply goes on into the step's variables
+			call, payload, payloadB, assert = c, "{}", "{}", ""
+		}
+		fmt.Fprintf(&b, "  - name: a%d\n    tag: a\n    call: %s\n    payload: '%s'\n%s    postprocessors:\n      - type: assert/response\n%s        status_code: 200\n", i, call, payload, meta, assert)
+		fmt.Fprintf(&b, "  - name: b%d\n    tag: b\n    call: %s\n    payload: '%s'\n", i, call, payloadB)
 	}
 	b.WriteString("scenarios:\n")
 	for i, l := range letters {
@@ -265,7 +271,11 @@ func grpcAmmo(letters []string, variant string) string {
 		case "emptydefault":
 			payload = "{}"
 		}
-		fmt.Fprintf(&b, "{\"tag\": \"%s\", \"call\": \"target.TargetService.Hello\", \"payload\": %s%s}\n", l, payload, meta)
+		call := "target.TargetService.Hello"
+		if c := scentarget.WktCall(l); c != "" {
+			call, payload = c, "{}"
+		}
+		fmt.Fprintf(&b, "{\"tag\": \"%s\", \"call\": \"%s\", \"payload\": %s%s}\n", l, call, payload, meta)
 	}
 	return b.String()
 }
@@ -450,6 +460,15 @@ func planAll(mixes int, rnd *rand.Rand, h2 bool) []respPlan {
 		plans = append(plans, respPlan{gun: "grpc", posts: "none", letters: repeat(l, shots), timeout: l == "gslow"})
 		plans = append(plans, respPlan{gun: "grpc/scenario", posts: "none", letters: repeat(l, shots), timeout: l == "gslow"})
 	}
+	// OK replies whose TYPE is a protobuf well-known type (Empty, Timestamp, Duration, wrappers, Struct, Value, ListValue, Any,
+	// FieldMask): single-letter runs for both guns, the scenario gun also with the side channels on
+	for _, l := range scentarget.WktLetters() {
+		plans = append(plans, respPlan{gun: "grpc", posts: "none", letters: repeat(l, shots)})
+		plans = append(plans, respPlan{gun: "grpc/scenario", posts: "none", letters: repeat(l, shots)})
+		if l == "wempty" || l == "wstring" || l == "wany" {
+			plans = append(plans, respPlan{gun: "grpc/scenario", posts: "none", letters: repeat(l, shots), debug: true})
+		}
+	}
 	// the timeout class (and two controls) crossed with the shape of the ammo: metadata none / some, payload empty /
 	// non-empty for the grpc guns; with / without a body for the http guns
 	for _, g := range []string{"grpc", "grpc/scenario"} {
@@ -509,7 +528,7 @@ func planAll(mixes int, rnd *rand.Rand, h2 bool) []respPlan {
 	}
 	// seeded random mixtures (letters whose effect is confined to their own request)
 	mixHTTP := append(append(append(append(append(append(append([]string{}, httpStatus...), httpNet...), httpBody...), httpOdd...), httpList...), httpLenBody...), httpLenNet...)
-	mixGrpc := append([]string{"gbig", "gtoobig", "gempty", "ggarbage"}, grpcOddCodes...)
+	mixGrpc := append(append([]string{"gbig", "gtoobig", "gempty", "ggarbage"}, grpcOddCodes...), scentarget.WktLetters()...)
 	mixPosts := append(append([]string{}, allPosts...), idxPostNames...)
 	for c := 0; c <= 16; c++ {
 		mixGrpc = append(mixGrpc, fmt.Sprintf("c%d", c))
